@@ -18,7 +18,6 @@ func historicalLookup(input OmegaInput) (output OmegaOutput) {
 
 	offset := uint64(32)
 	if !isReadable(h, offset, *input.VM.Memory) { // not readable, return panic
-		input.VM.Registers[7] = OOB
 		return OmegaOutput{
 			ExitReason: ExitPanic,
 			Addition:   input.Addition,
@@ -48,7 +47,6 @@ func historicalLookup(input OmegaInput) (output OmegaOutput) {
 	}
 
 	if !isWriteable(o, l, *input.VM.Memory) && l != 0 { // not writeable, return panic
-		input.VM.Registers[7] = OOB
 		return OmegaOutput{
 			ExitReason: ExitPanic,
 			Addition:   input.Addition,
@@ -82,7 +80,6 @@ func export(input OmegaInput) (output OmegaOutput) {
 	z := min(input.VM.Registers[8], types.SegmentSize)
 
 	if !isReadable(p, z, *input.VM.Memory) { // not readable, return
-		input.VM.Registers[7] = OOB
 		return OmegaOutput{
 			ExitReason: ExitPanic,
 			Addition:   input.Addition,
@@ -123,7 +120,6 @@ func machine(input OmegaInput) (output OmegaOutput) {
 	po, pz, i := input.VM.Registers[7], input.VM.Registers[8], input.VM.Registers[9]
 	// pz = offset
 	if !isReadable(po, pz, *input.VM.Memory) { // not readable, return
-		input.VM.Registers[7] = OOB
 		return OmegaOutput{
 			ExitReason: ExitPanic,
 			Addition:   input.Addition,
@@ -184,7 +180,6 @@ func peek(input OmegaInput) (output OmegaOutput) {
 
 	// z = offset
 	if !isWriteable(o, z, *input.VM.Memory) { // not writeable, return
-		input.VM.Registers[7] = OOB
 		return OmegaOutput{
 			ExitReason: ExitPanic,
 			Addition:   input.Addition,
@@ -232,7 +227,6 @@ func poke(input OmegaInput) (output OmegaOutput) {
 	n, s, o, z := input.VM.Registers[7], input.VM.Registers[8], input.VM.Registers[9], input.VM.Registers[10]
 
 	if !isReadable(s, z, *input.VM.Memory) { // not readable, return
-		input.VM.Registers[7] = OOB
 		return OmegaOutput{
 			ExitReason: ExitPanic,
 			Addition:   input.Addition,
@@ -250,7 +244,6 @@ func poke(input OmegaInput) (output OmegaOutput) {
 
 	// otherwise if N_o...+z not subset of \mathbf{V}_m[n]_u
 	if !isWriteable(o, z, input.Addition.IntegratedPVMMap[n].Memory) { // not writeable, return
-		input.VM.Registers[7] = OOB
 		return OmegaOutput{
 			ExitReason: ExitPanic,
 			Addition:   input.Addition,
@@ -354,7 +347,6 @@ func invoke(input OmegaInput) (output OmegaOutput) {
 	offset := uint64(112)
 	// g = panic
 	if !isWriteable(o, offset, *input.VM.Memory) {
-		input.VM.Registers[7] = OOB
 		return OmegaOutput{
 			ExitReason: ExitPanic,
 			Addition:   input.Addition,
